@@ -160,60 +160,102 @@ func ruleC13Width(c *Ctx) {
 			}
 		}
 	}
-	// reader rows
-	readers := map[*ssa.Function]rrow{}
+	// reader sites: every codec read call, with the length guard that dominates it and the first
+	// conversion applied to its result
+	type rsite struct {
+		fn     *ssa.Function
+		call   *ssa.Call
+		width  int64
+		codec  string
+		order  string
+		convOK bool
+		conv   string
+	}
+	siteOf := map[*ssa.Call]*rsite{}
+	sitesIn := map[*ssa.Function][]*rsite{}
+	bits := map[string]int64{"Uint16": 16, "Uint32": 32, "Uint64": 64}
 	for _, fn := range fns {
-		if len(fn.Params) != 1 && len(fn.Params) != 2 {
-			continue
+		var fi *FactInfo
+		for _, b := range fn.Blocks {
+			for _, in := range b.Instrs {
+				name, order, args, ok := codecCall(in)
+				if !ok || !strings.HasPrefix(name, "Uint") || len(args) < 1 {
+					continue
+				}
+				call := in.(*ssa.Call)
+				if fi == nil {
+					fi = ComputeFacts(fn)
+				}
+				rs := &rsite{fn: fn, call: call, width: -2, codec: name, order: order, convOK: true}
+				buf := args[0]
+				for f := range fi.At(b) {
+					if f.Kind != "true" {
+						continue
+					}
+					bo, ok := f.V.(*ssa.BinOp)
+					if !ok {
+						continue
+					}
+					lc, ok := bo.X.(*ssa.Call)
+					if !ok {
+						continue
+					}
+					if bi, ok := lc.Call.Value.(*ssa.Builtin); !ok || bi.Name() != "len" || lc.Call.Args[0] != buf {
+						continue
+					}
+					if k, ok := bo.Y.(*ssa.Const); ok && k.Value != nil {
+						w, _ := constant.Int64Val(k.Value)
+						if (bo.Op == token.NEQ && !f.Pol) || (bo.Op == token.EQL && f.Pol) {
+							rs.width = w
+						}
+					}
+				}
+				// first conversion of the raw unsigned value must keep its width (sign is re-attached
+				// at the same size before any widening)
+				for _, r := range *call.Referrers() {
+					switch x := r.(type) {
+					case *ssa.Convert:
+						bt, ok := x.Type().Underlying().(*types.Basic)
+						if !ok || p.sizeofBasic(bt)*8 != bits[name] {
+							rs.convOK = false
+							rs.conv = "converted directly to " + x.Type().String()
+						}
+					case *ssa.Call:
+						if f, _ := calleeOf(x.Common()); f == nil || f.Pkg() == nil || f.Pkg().Path() != "math" {
+							rs.convOK = false
+							rs.conv = "passed to " + x.String()
+						}
+					}
+				}
+				siteOf[call] = rs
+				sitesIn[fn] = append(sitesIn[fn], rs)
+			}
 		}
-		if fn.Signature.Recv() != nil {
-			continue
-		}
-		bufParam := fn.Params[0]
-		if sl, ok := bufParam.Type().Underlying().(*types.Slice); !ok || !types.Identical(sl.Elem(), types.Typ[types.Byte]) {
-			continue
-		}
-		if fn.Signature.Results().Len() != 1 {
+	}
+	// byte readers (bool): value[0] == 1 after a non-empty test
+	readers := map[*ssa.Function]bool{}
+	for fn := range sitesIn {
+		readers[fn] = true
+	}
+	byteReader := map[*ssa.Function]bool{}
+	for _, fn := range fns {
+		if fn.Signature.Recv() != nil || len(fn.Params) != 1 || fn.Signature.Results().Len() != 1 {
 			continue
 		}
 		if _, ok := fn.Signature.Results().At(0).Type().Underlying().(*types.Pointer); !ok {
 			continue
 		}
-		fi := ComputeFacts(fn)
-		row := rrow{fn: fn, width: -2}
+		if pt, ok := fn.Signature.Results().At(0).Type().Underlying().(*types.Pointer); !ok || !types.Identical(pt.Elem(), types.Typ[types.Bool]) {
+			continue
+		}
 		for _, b := range fn.Blocks {
 			for _, in := range b.Instrs {
-				if name, order, args, ok := codecCall(in); ok && len(args) >= 1 && args[0] == ssa.Value(bufParam) {
-					row.codec, row.order = name, order
-					// required length: fact len(buf) != W is false here
-					for f := range fi.At(b) {
-						if f.Kind == "true" {
-							if bo, ok := f.V.(*ssa.BinOp); ok {
-								if lc, ok := bo.X.(*ssa.Call); ok {
-									if bi, ok := lc.Call.Value.(*ssa.Builtin); ok && bi.Name() == "len" && lc.Call.Args[0] == ssa.Value(bufParam) {
-										if k, ok := bo.Y.(*ssa.Const); ok && k.Value != nil {
-											w, _ := constant.Int64Val(k.Value)
-											if (bo.Op == token.NEQ && !f.Pol) || (bo.Op == token.EQL && f.Pol) {
-												row.width = w
-											}
-										}
-									}
-								}
-							}
-						}
-					}
-				}
-				// byte reader: value[0] == 1
-				if ia, ok := in.(*ssa.IndexAddr); ok && ia.X == ssa.Value(bufParam) && row.codec == "" {
+				if ia, ok := in.(*ssa.IndexAddr); ok && ia.X == ssa.Value(fn.Params[0]) {
 					if ic, ok := ia.Index.(*ssa.Const); ok && ic.Value != nil && constant.Sign(ic.Value) == 0 {
-						row.codec = "byte"
-						row.width = 1
+						byteReader[fn] = true
 					}
 				}
 			}
-		}
-		if row.codec != "" {
-			readers[fn] = row
 		}
 	}
 	// dispatch: partial evaluation per tag
@@ -229,8 +271,25 @@ func ruleC13Width(c *Ctx) {
 		n, _ := constant.Int64Val(k.Value)
 		return n, true
 	}
-	var reach func(fn *ssa.Function, tag int64, depth int, acc map[*ssa.Function]bool)
-	reach = func(fn *ssa.Function, tag int64, depth int, acc map[*ssa.Function]bool) {
+	dispatches := func(fn *ssa.Function) bool {
+		for _, b := range fn.Blocks {
+			if len(b.Instrs) == 0 {
+				continue
+			}
+			if iff, ok := b.Instrs[len(b.Instrs)-1].(*ssa.If); ok {
+				if _, isCmp := isTagCmp(iff.Cond); isCmp {
+					return true
+				}
+			}
+		}
+		return false
+	}
+	type found struct {
+		sites map[*rsite]bool
+		bytes map[*ssa.Function]bool
+	}
+	var reach func(fn *ssa.Function, tag int64, depth int, acc *found)
+	reach = func(fn *ssa.Function, tag int64, depth int, acc *found) {
 		if depth > 4 || len(fn.Blocks) == 0 {
 			return
 		}
@@ -246,10 +305,15 @@ func ruleC13Width(c *Ctx) {
 				if !ok {
 					continue
 				}
-				if sc := call.Call.StaticCallee(); sc != nil && sc.Blocks != nil {
-					if _, isR := readers[sc]; isR {
-						acc[sc] = true
-					} else if passesTag(call, fieldType) {
+				if rs := siteOf[call]; rs != nil {
+					acc.sites[rs] = true
+					continue
+				}
+				if sc := call.Call.StaticCallee(); sc != nil && sc.Blocks != nil && sc.Pkg == fn.Pkg {
+					if byteReader[sc] {
+						acc.bytes[sc] = true
+					}
+					if readers[sc] || passesTag(call, fieldType) || dispatches(sc) {
 						reach(sc, tag, depth+1, acc)
 					}
 				}
@@ -270,41 +334,36 @@ func ruleC13Width(c *Ctx) {
 		}
 		walk(fn.Blocks[0])
 	}
-	// entry functions: those comparing a FieldType value with constants
 	var entries []*ssa.Function
 	for _, fn := range fns {
-		has := false
-		for _, b := range fn.Blocks {
-			if len(b.Instrs) == 0 {
-				continue
-			}
-			if iff, ok := b.Instrs[len(b.Instrs)-1].(*ssa.If); ok {
-				if _, isCmp := isTagCmp(iff.Cond); isCmp {
-					has = true
-				}
-			}
-		}
-		if has {
+		if dispatches(fn) {
 			entries = append(entries, fn)
 		}
 	}
-	c.Note(fmt.Sprintf("C13.WIDTH: %d writer rows, %d reader rows, %d tag-dispatching functions", len(writers), len(readers), len(entries)))
+	c.Note(fmt.Sprintf("C13.WIDTH: %d writer rows, %d codec read sites, %d tag-dispatching functions", len(writers), len(siteOf), len(entries)))
 	sort.Slice(writers, func(i, j int) bool { return FnName(writers[i].fn) < FnName(writers[j].fn) })
 	pair := map[string]string{"PutUint16": "Uint16", "PutUint32": "Uint32", "PutUint64": "Uint64", "byte": "byte"}
 	for _, w := range writers {
 		c.Analysed(FnName(w.fn))
 		nReaders := 0
 		for _, e := range entries {
-			acc := map[*ssa.Function]bool{}
+			acc := &found{sites: map[*rsite]bool{}, bytes: map[*ssa.Function]bool{}}
 			reach(e, w.tag, 0, acc)
-			for r := range acc {
+			if w.codec == "byte" {
+				for r := range acc.bytes {
+					nReaders++
+					construct := fmt.Sprintf("%s writes %s -> read by %s via %s", FnName(w.fn), tagName[w.tag], FnName(r), FnName(e))
+					c.Check(w.width >= 1 && w.offset == 1, "C13.WIDTH", construct, c.P.Pos(w.fn.Pos()), "one payload byte at offset 1, read as byte 0 of the value", "bool payload is not a single byte at offset 1")
+				}
+				continue
+			}
+			for rs := range acc.sites {
 				nReaders++
-				rr := readers[r]
-				construct := fmt.Sprintf("%s writes %s -> read by %s via %s", FnName(w.fn), tagName[w.tag], FnName(r), FnName(e))
-				ok := pair[w.codec] == rr.codec && (rr.width == w.width || (rr.codec == "byte" && w.width >= 1)) && (w.order == rr.order || w.codec == "byte") && w.offset == 1
-				c.Check(ok, "C13.WIDTH", construct, c.P.Pos(w.fn.Pos()),
-					fmt.Sprintf("payload %d byte(s) at offset 1, %s/%s, order %s on both sides", w.width, w.codec, rr.codec, w.order),
-					fmt.Sprintf("writer: %d payload byte(s) at offset %d via %s (%s); reader requires %d byte(s) via %s (%s): the value does not read back", w.width, w.offset, w.codec, w.order, rr.width, rr.codec, rr.order))
+				construct := fmt.Sprintf("%s writes %s -> read by %s via %s", FnName(w.fn), tagName[w.tag], FnName(rs.fn), FnName(e))
+				ok := pair[w.codec] == rs.codec && rs.width == w.width && w.order == rs.order && w.offset == 1 && rs.convOK
+				c.Check(ok, "C13.WIDTH", construct, c.P.Pos(rs.call.Pos()),
+					fmt.Sprintf("payload %d byte(s) at offset 1, %s/%s, order %s on both sides, width-preserving first conversion", w.width, w.codec, rs.codec, w.order),
+					fmt.Sprintf("writer: %d payload byte(s) at offset %d via %s (%s); reader requires %d byte(s) via %s (%s) %s: the value does not read back (width, codec, byte order or sign is lost)", w.width, w.offset, w.codec, w.order, rs.width, rs.codec, rs.order, rs.conv))
 			}
 		}
 		if nReaders == 0 {
